@@ -267,6 +267,10 @@ where
                 .write_throughput
                 .map(|v| RateLimiter::new(v.get() as _));
             for piece in pieces {
+                // Entries advised to stay in memory only never go to the disk cache, not even on close.
+                if piece.properties().location() == Location::InMem {
+                    continue;
+                }
                 let bytes = store.entry_estimated_size(piece.key(), piece.value());
                 if let Some(throttler) = &throttler {
                     let wait = throttler.consume(bytes as _);
